@@ -175,7 +175,17 @@ func (e *Engine) Discharge(obs []*Obligation, scratch string, quickS, fullS, wor
 		go func(i int, ob *Obligation) {
 			defer wg.Done()
 			defer func() { <-sem }()
-			r := solveOne(scratch, i, ob.Script, ob.Strings, quickS, fullS, nil)
+			var r solveResult
+			if ob.Cover {
+				// vacuity probe: only "unsat" matters; a short single-solver attempt is enough
+				sp := solvers[0]
+				if ob.Strings {
+					sp = solvers[2]
+				}
+				r = runSolver(context.Background(), sp, scratch, fmt.Sprintf("cover%04d", i), ob.Script, 2, ob.Strings, nil)
+			} else {
+				r = solveOne(scratch, i, ob.Script, ob.Strings, quickS, fullS, nil)
+			}
 			ob.Result, ob.Solver, ob.TimeS, ob.Model = r.status, r.solver, r.secs, ""
 			if r.status == "sat" && !ob.Cover {
 				// fetch values of the symbolic inputs for replay
